@@ -717,4 +717,90 @@ Proof.
   destruct H as [H1 [H2 H3]]. repeat split; auto.
 Qed.
 
+
+(* ---------- a sweep never takes a live entry: the one-at-a-time explanation of "sweep while re-storing" ----------
+   A key that is absent (never stored, deleted, or dropped by the miss that found it expired) is stored at t1; a sweep may
+   run afterwards (at t2), or not at all - the two places the sweep can take in a one-at-a-time order of
+   {lookup-miss; store} and {sweep} that matter; a lookup at t3, within the lifetime counted from t1, finds the value. *)
+Lemma removelast_cons_keep {A} (x : A) (l : list A) : l <> [] -> removelast (x :: l) = x :: removelast l.
+Proof. destruct l; [congruence | reflexivity]. Qed.
+
+Lemma fresh_entry_survives_sweep s last t1 t2 t3 k v (sweep : bool) :
+  Inv s last -> t1 <= t2 -> t2 <= t3 ->
+  lookup k (items s) = None ->
+  (ttl s <= 0 \/ t3 - t1 <= ttl s) ->
+  let s1 := fst (step s t1 (Put k v)) in
+  let s2 := if sweep then fst (step s1 t2 Cleanup) else s1 in
+  snd (step s2 t3 (Get k)) = OGet (Some v).
+Proof.
+  intros I H12 H23 L T.
+  (* the store puts a fresh entry at the front *)
+  assert (P : exists rest, items (fst (step s t1 (Put k v))) =
+                {| e_key := k; e_val := v; e_created := t1; e_stored := t1; e_touch := S (tick s) |} :: rest /\
+                ttl (fst (step s t1 (Put k v))) = ttl s).
+  { unfold step, put. cbn [fst next_tick items ttl tick cap]. rewrite L.
+    destruct (Z.of_nat (length (_ :: items s)) >? cap s) eqn:C.
+    - cbn [bump_evict with_items items ttl]. unfold evict_oldest.
+      destruct (items s) as [|e0 r0] eqn:E.
+      + exfalso. pose proof (inv_cap _ _ I). cbn [length] in C. change (Z.of_nat 1) with 1 in C. lia.
+      + rewrite removelast_cons_keep by discriminate. eexists. split; reflexivity.
+    - cbn [with_items items ttl]. eexists. split; reflexivity. }
+  destruct P as [rest [P1 P2]].
+  set (e' := {| e_key := k; e_val := v; e_created := t1; e_stored := t1; e_touch := S (tick s) |}) in *.
+  (* a sweep leaves it where it is *)
+  assert (Q : exists rest', items (if sweep then fst (step (fst (step s t1 (Put k v))) t2 Cleanup) else fst (step s t1 (Put k v))) = e' :: rest' /\
+                            ttl (if sweep then fst (step (fst (step s t1 (Put k v))) t2 Cleanup) else fst (step s t1 (Put k v))) = ttl s).
+  { remember (fst (step s t1 (Put k v))) as s1 eqn:Es1.
+    destruct sweep; [|exists rest; auto].
+    unfold step.
+    destruct (cleanup K V (next_tick K V s1) t2) as [s' n] eqn:E. cbn [fst].
+    destruct (cleanup_spec _ _ _ _ E) as [kept [dropped [A [B [_ [_ [TT [_ [_ [_ [_ D]]]]]]]]]]].
+    cbn [next_tick items ttl] in A, TT, D. rewrite P1 in A. rewrite P2 in TT, D.
+    destruct kept as [|x kept'].
+    - exfalso. simpl in A. subst dropped. inversion D as [|? ? [D1 D2] _]; subst. cbn [e_created e'] in D2. lia.
+    - simpl in A. inversion A; subst. exists kept'. rewrite B. auto. }
+  destruct Q as [rest' [Q1 Q2]].
+  cbv zeta.
+  set (s2 := if sweep then fst (step (fst (step s t1 (Put k v))) t2 Cleanup) else fst (step s t1 (Put k v))) in *.
+  unfold step, get. cbn [next_tick items]. rewrite Q1. cbn [lookup e_key e']. rewrite keqb_refl.
+  unfold expired. cbn [ttl next_tick e_created e']. rewrite Q2.
+  destruct ((ttl s >? 0) && (t3 - t1 >? ttl s)) eqn:X.
+  - exfalso. apply andb_prop in X. destruct X as [X1 X2]. rewrite Z.gtb_ltb, Z.ltb_lt in X1, X2. lia.
+  - reflexivity.
+Qed.
+
+(* the lookup that found the key absent or expired leaves it absent *)
+Lemma miss_leaves_absent s last now k :
+  Inv s last -> snd (step s now (Get k)) = OGet None -> lookup k (items (fst (step s now (Get k)))) = None.
+Proof.
+  intros I. unfold step, get. cbn [next_tick items].
+  destruct (lookup k (items s)) as [e|] eqn:L.
+  - destruct (expired K V (next_tick K V s) now e); cbn [fst snd]; [|discriminate]. intros _.
+    cbn [bump_miss with_items items]. apply lookup_none. apply remove_keys_notin. exact (inv_nodup _ _ I).
+  - cbn [fst snd bump_miss items]. intros _. exact L.
+Qed.
+
+
+Lemma fresh_survives_reachable c t t0 h t1 t2 t3 k v (sweep : bool) :
+  mono_from t0 h ->
+  let s := reach c t t0 h in
+  t1 <= t2 -> t2 <= t3 -> lookup k (items s) = None -> (ttl s <= 0 \/ t3 - t1 <= ttl s) ->
+  let s1 := fst (step s t1 (Put k v)) in
+  let s2 := if sweep then fst (step s1 t2 Cleanup) else s1 in
+  snd (step s2 t3 (Get k)) = OGet (Some v).
+Proof.
+  intros M s H12 H23 L T.
+  pose proof (reach_inv _ _ _ (inv_new c t t0) M) as I. fold (reach c t t0 h) in I.
+  exact (fresh_entry_survives_sweep _ _ t1 t2 t3 k v sweep I H12 H23 L T).
+Qed.
+
+Lemma miss_leaves_absent_reachable c t t0 h now k :
+  mono_from t0 h ->
+  let s := reach c t t0 h in
+  snd (step s now (Get k)) = OGet None -> lookup k (items (fst (step s now (Get k)))) = None.
+Proof.
+  intros M s. pose proof (reach_inv _ _ _ (inv_new c t t0) M) as I. fold (reach c t t0 h) in I.
+  exact (miss_leaves_absent _ _ now k I).
+Qed.
+
 End LruProofs.
